@@ -145,56 +145,67 @@ EscNeed(t, i) ==
   ELSE IF t[i + 1] = "x" /\ i + 2 <= Len(t) /\ t[i + 2] = "1" THEN 3
   ELSE 0
 
-(* Scan the text: mode "out" skips anything but quotes; a double quote     *)
-(* opens a stringValue, an apostrophe a charValue.  Result: ok + the raw   *)
-(* token contents (without quotes) + token kinds.                          *)
+(* Scan the text: mode "out" skips anything but quotes and counts commas   *)
+(* (array element separators); a double quote opens a stringValue, an      *)
+(* apostrophe a charValue.  Result: ok + per token its raw content         *)
+(* (without quotes), kind and the number of commas seen before it.  A      *)
+(* comma inside a literal is an ordinary character ("g").                  *)
+LexFail(acc) == [ok |-> FALSE, toks |-> acc.toks, kinds |-> acc.kinds,
+                 grps |-> acc.grps]
+AddTok(acc, tok, kind, g) ==
+  [toks |-> Append(acc.toks, tok), kinds |-> Append(acc.kinds, kind),
+   grps |-> Append(acc.grps, g)]
+
 RECURSIVE LexFrom(_, _, _, _, _, _)
-LexFrom(t, i, mode, cur, toks, kinds) ==
+LexFrom(t, i, mode, cur, g, acc) ==
   IF i > Len(t)
-  THEN [ok |-> mode = "out", toks |-> toks, kinds |-> kinds]
+  THEN [ok |-> mode = "out", toks |-> acc.toks, kinds |-> acc.kinds,
+        grps |-> acc.grps]
   ELSE LET c == t[i] IN
   IF mode = "out"
-  THEN IF c = "Q" THEN LexFrom(t, i + 1, "str", <<>>, toks, kinds)
+  THEN IF c = "Q" THEN LexFrom(t, i + 1, "str", <<>>, g, acc)
+       ELSE IF c = "," THEN LexFrom(t, i + 1, "out", cur, g + 1, acc)
        ELSE IF c = "A" THEN
          \* charValue: exactly one cChar
-         IF i + 1 > Len(t) THEN [ok |-> FALSE, toks |-> toks, kinds |-> kinds]
+         IF i + 1 > Len(t) THEN LexFail(acc)
          ELSE IF t[i + 1] = "B"
               THEN LET n == EscNeed(t, i + 1) IN
-                   IF n = 0 THEN [ok |-> FALSE, toks |-> toks, kinds |-> kinds]
+                   IF n = 0 THEN LexFail(acc)
                    ELSE LET hexmore == {k \in 0..3 :
                                   /\ n = 3
                                   /\ \A m \in 0..k : i + 3 + m <= Len(t)
                                                      /\ t[i + 3 + m] = "1"}
-                            len == IF n = 2 THEN 2 ELSE 3 + MaxOf(hexmore)
                             \* the regexp backtracks: any 1..4 digits such
                             \* that the closing apostrophe follows
                             lens == IF n = 2 THEN {2}
                                     ELSE {3 + k : k \in hexmore}
                             good == {m \in lens : i + 1 + m <= Len(t)
                                                   /\ t[i + 1 + m] = "A"}
-                        IN IF good = {}
-                           THEN [ok |-> FALSE, toks |-> toks, kinds |-> kinds]
+                        IN IF good = {} THEN LexFail(acc)
                            ELSE LET m == MaxOf(good) IN
-                                LexFrom(t, i + 2 + m, "out", <<>>,
-                                        Append(toks, SubSeq(t, i + 1, i + m)),
-                                        Append(kinds, "char"))
+                                LexFrom(t, i + 2 + m, "out", <<>>, g,
+                                        AddTok(acc, SubSeq(t, i + 1, i + m),
+                                               "char", g))
               ELSE IF t[i + 1] \in {"A", "L"} \/ i + 2 > Len(t) \/ t[i + 2] # "A"
-                   THEN [ok |-> FALSE, toks |-> toks, kinds |-> kinds]
-                   ELSE LexFrom(t, i + 3, "out", <<>>,
-                                Append(toks, <<t[i + 1]>>), Append(kinds, "char"))
-       ELSE LexFrom(t, i + 1, "out", cur, toks, kinds)
+                   THEN LexFail(acc)
+                   ELSE LexFrom(t, i + 3, "out", <<>>, g,
+                                AddTok(acc, <<IF t[i + 1] = "," THEN "g"
+                                              ELSE t[i + 1]>>, "char", g))
+       ELSE LexFrom(t, i + 1, "out", cur, g, acc)
   ELSE \* inside a stringValue
-       IF c = "Q" THEN LexFrom(t, i + 1, "out", <<>>, Append(toks, cur),
-                               Append(kinds, "str"))
-       ELSE IF c = "L" THEN [ok |-> FALSE, toks |-> toks, kinds |-> kinds]
+       IF c = "Q" THEN LexFrom(t, i + 1, "out", <<>>, g,
+                               AddTok(acc, cur, "str", g))
+       ELSE IF c = "L" THEN LexFail(acc)
        ELSE IF c = "B"
             THEN LET n == EscNeed(t, i) IN
-                 IF n = 0 THEN [ok |-> FALSE, toks |-> toks, kinds |-> kinds]
+                 IF n = 0 THEN LexFail(acc)
                  ELSE LexFrom(t, i + n, "str", cur \o SubSeq(t, i, i + n - 1),
-                              toks, kinds)
-            ELSE LexFrom(t, i + 1, "str", Append(cur, c), toks, kinds)
+                              g, acc)
+            ELSE LexFrom(t, i + 1, "str",
+                         Append(cur, IF c = "," THEN "g" ELSE c), g, acc)
 
-Lex(t) == LexFrom(t, 1, "out", <<>>, <<>>, <<>>)
+Lex(t) == LexFrom(t, 1, "out", <<>>, 0,
+                  [toks |-> <<>>, kinds |-> <<>>, grps |-> <<>>])
 
 (*--------------------------- _fixStringValue -----------------------------*)
 (* s = token content; i = 0-based index as in the Python loop.             *)
@@ -223,8 +234,8 @@ UnescFrom(s, i, esc, rv, aposKeep) ==
 
 Unesc(tok, aposKeep) == UnescFrom(tok, 0, FALSE, <<>>, aposKeep)
 
-(* Read a text that consists of the literal(s) of ONE value: adjacent      *)
-(* stringValues are concatenated; a charValue stands alone.                *)
+(* Read the literal(s) of ONE value: adjacent stringValues are             *)
+(* concatenated (p_stringValueList); a charValue stands alone.             *)
 RECURSIVE ConcatFrom(_, _, _)
 ConcatFrom(toks, k, aposKeep) ==
   IF k > Len(toks) THEN [ok |-> TRUE, rv |-> <<>>]
@@ -234,18 +245,34 @@ ConcatFrom(toks, k, aposKeep) ==
 
 Bad == [ok |-> FALSE, rv |-> <<>>]
 
+ReadToks(toks, kinds, aposKeep, charRaw) ==
+  IF Len(toks) = 0 THEN Bad
+  ELSE IF \A k \in DOMAIN kinds : kinds[k] = "str"
+       THEN ConcatFrom(toks, 1, aposKeep)
+  ELSE IF Len(toks) = 1                          \* a single charValue
+       THEN IF charRaw THEN [ok |-> TRUE, rv |-> <<"A">> \o toks[1] \o <<"A">>]
+            ELSE Unesc(toks[1], aposKeep)
+  ELSE Bad
+
 Read(t, aposKeep, charRaw) ==
   LET lx == Lex(t) IN
-  IF ~lx.ok \/ Len(lx.toks) = 0 THEN Bad
-  ELSE IF \A k \in DOMAIN lx.kinds : lx.kinds[k] = "str"
-       THEN ConcatFrom(lx.toks, 1, aposKeep)
-  ELSE IF Len(lx.toks) = 1                       \* a single charValue
-       THEN IF charRaw THEN [ok |-> TRUE, rv |-> <<"A">> \o lx.toks[1] \o <<"A">>]
-            ELSE Unesc(lx.toks[1], aposKeep)
-  ELSE Bad
+  IF ~lx.ok THEN Bad ELSE ReadToks(lx.toks, lx.kinds, aposKeep, charRaw)
+
+(* the tokens of array element number g (0-based), in order *)
+Sel(lx, g) ==
+  LET idx == {k \in DOMAIN lx.toks : lx.grps[k] = g}
+      RECURSIVE pick(_)
+      pick(k) == IF k > Len(lx.toks) THEN <<>>
+                 ELSE IF k \in idx THEN <<k>> \o pick(k + 1) ELSE pick(k + 1)
+      ks == pick(1)
+  IN [toks |-> [j \in DOMAIN ks |-> lx.toks[ks[j]]],
+      kinds |-> [j \in DOMAIN ks |-> lx.kinds[ks[j]]]]
 
 (* What the literal(s) denote by DSP0004 (escapes honoured, \' included)   *)
 Denote(t) == Read(t, TRUE, FALSE)
+DenoteElem(lx, g) ==
+  IF ~lx.ok THEN Bad
+  ELSE LET sl == Sel(lx, g) IN ReadToks(sl.toks, sl.kinds, TRUE, FALSE)
 
 (***************************************************************************)
 (* Part 2: requirement machine for observed events.                        *)
@@ -254,18 +281,15 @@ Denote(t) == Read(t, TRUE, FALSE)
 (*   reading of its output                                                 *)
 (*     s, indent, maxline, lp, endsp, avoid   the vector                   *)
 (*     out, olp        text returned by mofstr (class projection), new pos *)
-(*     flat            text returned for an unlimited line length          *)
 (*     accepted        the compiler accepted a declaration holding `out`   *)
 (*     srctok, gottok  the exact source / compiled string (opaque tokens)  *)
-(*     got             class projection of the compiled string             *)
+(*     lit             see below                                           *)
 (* op = "obj":   one object: original and compiled, flattened to elements  *)
 (*     orig, comp : sequences of                                           *)
 (*       [path, et, type, arr, asize, ref, emb, super, isnull, val,        *)
 (*        ovr, tosub, transl, toinst, dovr, dtosub, dtransl, dtoinst,      *)
 (*        scopes]                                                          *)
-(*     generated, accepted, lit = [has, s, out, flat, got]  (the one       *)
-(*     string/char16 literal of a unit object: source classes, its text    *)
-(*     region, the same generated without folding, compiled classes)       *)
+(*     generated (tomof returned), accepted (the compiler accepted), lit   *)
 (***************************************************************************)
 InitState == 0
 Apply(s, e) == s
@@ -308,17 +332,59 @@ ElemFails(o, c) ==
 Paths(es) == {es[i].path : i \in DOMAIN es}
 AtPath(es, p) == es[CHOOSE i \in DOMAIN es : es[i].path = p]
 
-(* diagnosis (never a clause on its own; added only when a clause fails):   *)
-(* which side is at fault.  `flat` is the same literal generated with an   *)
-(* unlimited line length (no folding).                                     *)
-GenDenotes(src, out) == LET d == Denote(out) IN d.ok /\ d.rv = src
+(* The string / char16 literal(s) of the ONE string-typed value of a unit  *)
+(* object (or of a fold vector):                                           *)
+(*   lit = [has, q, elems, out, flat, gotok, got]                          *)
+(*     elems  the source value: one [isnull, s] per array element (one for *)
+(*            a scalar), s = class projection                              *)
+(*     out    the text region holding the literal(s); flat = the same      *)
+(*            generated with an unlimited line length (no folding)         *)
+(*     got    the compiled value in the same form (gotok = it has a form)  *)
+(* Clause: what the compiler delivers is what the literals denote.         *)
+ElemsDenoted(elems, text) ==
+  LET lx == Lex(text) IN
+  \A j \in DOMAIN elems :
+     \/ elems[j].isnull
+     \/ LET d == DenoteElem(lx, j - 1) IN d.ok /\ d.rv = elems[j].s
 
-LitFails(accepted, src, out, got) ==
-  F("Literal.ArrivesAsDenoted", ~(accepted /\ GenDenotes(src, out)) \/ got = src)
+LitFails(accepted, lit) ==
+  F("Literal.ArrivesAsDenoted",
+    ~(accepted /\ ElemsDenoted(lit.elems, lit.out))
+    \/ (lit.gotok /\ lit.got = lit.elems))
 
-LitDiag(src, out, flat) ==
-  IF ~GenDenotes(src, flat) THEN {"diag.EscapingDoesNotDenoteOriginal"}
-  ELSE IF ~GenDenotes(src, out) THEN {"diag.FoldingBreaksLiteral"}
+(* Diagnosis (never a clause on its own; added only when a clause fails):  *)
+(* which side is at fault.                                                 *)
+Same(c, e) == c = e \/ (c = "," /\ e = "g")
+NoComma(seq) == [i \in DOMAIN seq |-> IF seq[i] = "," THEN "g" ELSE seq[i]]
+
+(* `t` is nothing but the escaped text E cut into quoted parts *)
+RECURSIVE Refold(_, _, _, _, _, _)
+Refold(t, i, E, k, inpart, q) ==
+  IF i > Len(t) THEN ~inpart /\ k > Len(E)
+  ELSE LET c == t[i] IN
+  IF ~inpart
+  THEN IF c \in {"L", "_"} THEN Refold(t, i + 1, E, k, FALSE, q)
+       ELSE IF c = q THEN Refold(t, i + 1, E, k, TRUE, q)
+       ELSE FALSE
+  ELSE \/ k <= Len(E) /\ Same(c, E[k]) /\ Refold(t, i + 1, E, k + 1, TRUE, q)
+       \/ c = q /\ Refold(t, i + 1, E, k, FALSE, q)
+
+Syms == Src \cup {"U"}
+CountOf(seq, c) == Cardinality({i \in DOMAIN seq : seq[i] = c})
+MisCounted(lit) ==
+  IF ~lit.gotok \/ Len(lit.got) # Len(lit.elems) THEN {"shape"}
+  ELSE UNION {{c \in Syms : CountOf(lit.elems[j].s, c) # CountOf(lit.got[j].s, c)}
+                : j \in DOMAIN lit.elems}
+
+LitDiag(accepted, lit) ==
+  IF ~ElemsDenoted(lit.elems, lit.flat)
+  THEN {"diag.EscapingDoesNotDenoteOriginal"}
+  ELSE IF ~ElemsDenoted(lit.elems, lit.out)
+  THEN IF Len(lit.elems) = 1 /\ ~lit.elems[1].isnull
+       THEN IF Refold(lit.out, 1, Esc(lit.elems[1].s), 1, FALSE, lit.q)
+            THEN {"diag.FoldInsideEscape"} ELSE {"diag.FoldAltersText"}
+       ELSE {"diag.FoldBreaksArrayLiteral"}
+  ELSE IF accepted THEN {"diag.miscounted." \o c : c \in MisCounted(lit)}
   ELSE {}
 
 ObjFails(e) ==
@@ -330,19 +396,24 @@ ObjFails(e) ==
                         /\ Cardinality(Paths(e.comp)) = Len(e.comp))
              \cup UNION {ElemFails(AtPath(e.orig, p), AtPath(e.comp, p)) :
                            p \in Paths(e.orig) \cap Paths(e.comp)}
-      lit == IF e.lit.has /\ e.generated
-             THEN LitFails(e.accepted, e.lit.s, e.lit.out, e.lit.got)
-             ELSE {}
-      all == core \cup lit
-  IN IF all # {} /\ e.lit.has /\ e.generated
-     THEN all \cup LitDiag(e.lit.s, e.lit.out, e.lit.flat)
-     ELSE all
+      haslit == e.lit.has /\ e.generated
+      all == core \cup (IF haslit THEN LitFails(e.accepted, e.lit) ELSE {})
+  IN IF all # {} /\ haslit THEN all \cup LitDiag(e.accepted, e.lit) ELSE all
+
+FoldParams(e, safe) ==
+  [indent |-> e.indent, maxline |-> e.maxline, endsp |-> e.endsp,
+   avoid |-> e.avoid, safe |-> safe, quote |-> "Q"]
 
 FoldFails(e) ==
   LET all == F("CompilerAccepts", e.accepted)
              \cup F("Values.string", ~e.accepted \/ e.gottok = e.srctok)
-             \cup LitFails(e.accepted, e.s, e.out, e.got)
-  IN IF all # {} THEN all \cup LitDiag(e.s, e.out, e.flat) ELSE all
+             \cup LitFails(e.accepted, e.lit)
+      b == Fold(e.s, e.lp, FoldParams(e, FALSE))
+  IN IF all = {} THEN {}
+     ELSE all \cup LitDiag(e.accepted, e.lit)
+          \cup (IF ~b.err /\ b.out = NoComma(e.out)
+                   /\ Fold(e.s, e.lp, FoldParams(e, TRUE)).out # NoComma(e.out)
+                THEN {"diag.mofstrIsTheSplitAnywhereVariant"} ELSE {})
 
 Fails(s, e) ==
   IF e.op = "fold" THEN FoldFails(e)
@@ -350,14 +421,10 @@ Fails(s, e) ==
   ELSE {"UnknownEvent"}
 
 (* binding of the transcription (impl drift, never a violation) *)
-FoldParams(e, safe) ==
-  [indent |-> e.indent, maxline |-> e.maxline, endsp |-> e.endsp,
-   avoid |-> e.avoid, safe |-> safe, quote |-> "Q"]
-
 FoldDrift(e) ==
   LET a == Fold(e.s, e.lp, FoldParams(e, TRUE))
       b == Fold(e.s, e.lp, FoldParams(e, FALSE))
-      same(r) == ~r.err /\ r.out = e.out /\ r.lp = e.olp
+      same(r) == ~r.err /\ r.out = NoComma(e.out) /\ r.lp = e.olp
   IN IF same(a) THEN {}
      ELSE IF same(b) THEN {"mofstr.splits-inside-escapes-variant"}
      ELSE {"mofstr.output-differs-from-both-variants"}
